@@ -74,6 +74,7 @@ type Ctx struct {
 	obs       []*Obligation
 	callSites int
 	loadErr   string
+	Sub       bool // a sub-run inside another property: nested sub-runs are skipped
 }
 
 func (c *Ctx) pos(p token.Pos) string {
